@@ -321,12 +321,18 @@ func showAnn(m map[string]string) string {
 	if len(m) == 0 {
 		return "-"
 	}
-	var ps []string
+	type pair struct{ k, v string }
+	var ps []pair
 	for k, v := range m {
-		ps = append(ps, common.Hex(k)+"="+common.Hex(v))
+		ps = append(ps, pair{common.Hex(k), common.Hex(v)})
 	}
-	sort.Strings(ps)
-	return strings.Join(ps, ";")
+	// same order as ml/c19_main.ml: by hex key (keys are unique)
+	sort.Slice(ps, func(i, j int) bool { return ps[i].k < ps[j].k })
+	out := make([]string, len(ps))
+	for i, p := range ps {
+		out[i] = p.k + "=" + p.v
+	}
+	return strings.Join(out, ";")
 }
 
 func descExtra(d ocispec.Descriptor) string {
@@ -865,6 +871,15 @@ func packCase(sp *spec) {
 	}
 	// every invented blob is present
 	for _, d := range e.invented {
+		if isManifestType(d.MediaType) {
+			// the caller typed the invented config as a manifest: a registry answers by digest within
+			// its manifest namespace and may hold the same bytes under another manifest media type;
+			// presence is then the target's own Exists (not judged further, see allBacked)
+			if ok, xerr := inner.Exists(ctx, d); xerr != nil || !ok {
+				fail("invented-blob-missing", "invented blob %s %s is not in the target: %v", d.MediaType, d.Digest, xerr)
+			}
+			continue
+		}
 		data, ferr := content.FetchAll(ctx, inner, d)
 		if ferr != nil || string(data) != "{}" {
 			fail("invented-blob-missing", "invented blob %s %s is not in the target: %v", d.MediaType, d.Digest, ferr)
